@@ -621,11 +621,11 @@ func (s *CreateDatabaseStatement) String() string {
 			_, _ = buf.WriteString(" SHARD DURATION ")
 			_, _ = buf.WriteString(FormatDuration(s.RetentionPolicyShardGroupDuration))
 		}
-		if s.FutureWriteLimit != nil && *s.FutureWriteLimit > 0 {
+		if s.FutureWriteLimit != nil {
 			_, _ = buf.WriteString(" FUTURE LIMIT ")
 			_, _ = buf.WriteString(FormatDuration(*s.FutureWriteLimit))
 		}
-		if s.PastWriteLimit != nil && *s.PastWriteLimit > 0 {
+		if s.PastWriteLimit != nil {
 			_, _ = buf.WriteString(" PAST LIMIT ")
 			_, _ = buf.WriteString(FormatDuration(*s.PastWriteLimit))
 		}
@@ -1048,12 +1048,12 @@ func (s *AlterRetentionPolicyStatement) String() string {
 		_, _ = buf.WriteString(" DEFAULT")
 	}
 
-	if s.FutureWriteLimit != nil && *s.FutureWriteLimit != 0 {
+	if s.FutureWriteLimit != nil {
 		_, _ = buf.WriteString(" FUTURE LIMIT ")
 		_, _ = buf.WriteString(FormatDuration(*s.FutureWriteLimit))
 	}
 
-	if s.PastWriteLimit != nil && *s.PastWriteLimit != 0 {
+	if s.PastWriteLimit != nil {
 		_, _ = buf.WriteString(" PAST LIMIT ")
 		_, _ = buf.WriteString(FormatDuration(*s.PastWriteLimit))
 	}
